@@ -121,6 +121,20 @@ def g_hist_high(r):
     return fmt(history(r, base=base, window=r.choice([20, 40])))
 
 
+def g_hist_far(r):
+    """two regions at least 2^63 bytes apart, operations interleaved, closed by block / missing queries"""
+    lo = r.choice([0, 7, 1000, 2 ** 32 - 30])
+    hi = r.choice([2 ** 63 + 2 ** 62, TOP - 300, 2 ** 63 + 2000, 2 ** 63 + 2 ** 32])
+    o1 = history(r, base=lo, window=30, nops=r.choice([2, 3, 5, 8]))
+    o2 = history(r, base=hi, window=30, nops=r.choice([2, 3, 5, 8]))
+    ops = []
+    while o1 or o2:
+        src = o1 if (o1 and (not o2 or r.random() < 0.5)) else o2
+        ops.append(src.pop(0))
+    ops.append("bl")
+    return fmt(ops)
+
+
 def g_hist_wide(r):
     """few, wide stores (narrow values stored 33..255 bytes wide) and byte loads anywhere in them"""
     ops = history(r, window=60, nops=r.choice([2, 3, 4, 6]), wide=True)
